@@ -524,6 +524,8 @@ class UnionMetaType(StructureMetaType):
         object.__setattr__(obj, "_values", result)
         object.__setattr__(obj, "_sizes", sizes)
         object.__setattr__(obj, "_buf", buf)
+        # The members of a fixed size union are parsed from a copy of its bytes, its pointers still point into this stream
+        object.__setattr__(obj, "_stream", stream)
 
         if cls.size is not None:
             obj._update()
@@ -611,6 +613,8 @@ class Union(Structure, metaclass=UnionMetaType):
 
     def _update(self) -> None:
         result, sizes = self.__class__._read_fields(io.BytesIO(self._buf))
+        if (stream := self.__dict__.get("_stream")) is not None:
+            _rebind_pointers(result.values(), stream)
         self.__dict__.update(result)
         object.__setattr__(self, "_values", result)
         object.__setattr__(self, "_sizes", sizes)
@@ -675,6 +679,19 @@ class UnionProxy:
     def __setattr__(self, attr: str, value: Any) -> None:
         setattr(self.__target__, attr, value)
         self.__union__._rebuild(self.__attr__)
+
+
+def _rebind_pointers(values: Any, stream: BinaryIO) -> None:
+    """Make the pointers in ``values`` (also inside arrays and nested structures) dereference into ``stream``."""
+    for value in values:
+        if isinstance(value, Pointer):
+            value._stream = stream
+        elif isinstance(value, list):
+            _rebind_pointers(value, stream)
+        elif isinstance(value, Structure):
+            _rebind_pointers((getattr(value, field._name) for field in value.__class__.__fields__), stream)
+        elif isinstance(value, UnionProxy):
+            _rebind_pointers([value.__target__], stream)
 
 
 def _anonymous_values(type_: StructureMetaType, value: Structure) -> dict[str, Any]:
